@@ -115,8 +115,6 @@ func (s *JavaAPIListener) EnterAnnotation(ctx *parser.AnnotationContext) {
 		if hasEnterClass {
 			addApiMethod(annotationName)
 		}
-
-		return
 	}
 
 	if ctx.ElementValuePairs() != nil {
